@@ -72,7 +72,7 @@ pub fn bodies(tier: &str) -> Vec<crate::e3::BodySpec> {
 pub fn run(tier: &str) -> i32 {
     let t0 = Instant::now();
     let mut o = Outcome::new("C10", tier, "model_checking");
-    let ps = passes(tier);
+    let ps = with_dedup(passes(tier), tier);
     let wit = run_passes(&mut o, &ps);
     o.cov("rule", json!("every enabled program over {insert into each keyspace, two-keyspace batch, rotate each keyspace, every queued worker message in every order with and without journal rotation, delete keyspace, reopen} up to the per-pass depth is executed on the real code; whenever a *.jnl file disappears: it must be the oldest, every record the harness logged into it must be <= its keyspace's highest persisted seqno at that instant, and a crash image taken right then must recover exactly the acknowledged state; at the end of every program all keyspaces are flushed and the queue drained: journal_count()==1 and one journal file on disk."));
     o.assumptions = vec![
